@@ -398,8 +398,11 @@ def run(ctx):
     ctx.notes["explanation"] = ("proved over the regenerated tables for all inputs: exactly-once (pairs and histories), check_all_set "
                                 "after every accepted dispatch, rejection of missing keys and unknown values, acceptance of every "
                                 "dispatched literal on a witness configuration, documented literal tables, head-count key derivation. "
-                                "Partial: the override frame is evaluated in the kernel on two witness configurations only and "
-                                "otherwise covered by the differential and the audit; the head-count override reaches the row "
+                                "The override frame is proved for every accepted dictionary and row from lookup/update lemmas over the "
+                                "generated override blocks (each <species>_head, kg_meat_per_large_animal, the two bounded "
+                                "constants, both multipliers incl. out-of-range rejection; multiplier theorems assume years 1..10 "
+                                "are numbers, shown satisfiable), and single-constant overrides commute; "
+                                "the head-count override reaches the row "
                                 "create_animal_objects reads for every country code (c13_head_reach, re-proved from the statement "
                                 "order in animal_populations.main; the audit re-tests every species x code); caller-dictionary immutability is "
                                 "checked on the implementation only (the model is functional).")
